@@ -520,7 +520,8 @@ pub fn sweep(
     let parts: Vec<Agg> = std::thread::scope(|s| {
         let hs: Vec<_> = (0..workers)
             .map(|w| {
-                s.spawn(move || {
+                // (deep call chains of the simulated chain recurse on the native stack)
+                std::thread::Builder::new().stack_size(crate::STACK_BYTES).spawn_scoped(s, move || {
                     crate::world::install_panic_hook();
                     let mut agg = Agg::new();
                     let mut i = first + w as u64;
@@ -538,6 +539,7 @@ pub fn sweep(
                     }
                     agg
                 })
+                .expect("spawn worker")
             })
             .collect();
         hs.into_iter().map(|h| h.join().expect("worker")).collect()
